@@ -426,16 +426,18 @@ DEFS = {
     ],
     "mutants/c03_call_wrappers_read_all_invariants": [
         (CHK, """                    if is_setattr
-                    else instance.__class__.__invariants_on_call__
+                    else "__invariants_on_call__",
 """, """                    if is_setattr
-                    else instance.__class__.__invariants__
+                    else "__invariants__",
 """, 2),
     ],
     "seeded/C13_r2_async_method_checks_setattr_invariants": [
-        (CHK, """                invariants = (
-                    instance.__class__.__invariants_on_setattr__
+        (CHK, """                invariants = getattr(
+                    instance.__class__,
+                    "__invariants_on_setattr__"
                     if is_setattr
-                    else instance.__class__.__invariants_on_call__
+                    else "__invariants_on_call__",
+                    (),
                 )
 """, """                # ``__setattr__`` can not be a coroutine function, so there is no need to select the invariants
                 # by the kind of the member here (as opposed to the sync wrapper below).
@@ -800,6 +802,59 @@ for _text_limit in ("maxstring", "maxother"):
     "mutants/c06_fix_assigned_names_known_to_the_representation_reverted": [
         (REPR, """            variable_lookup=variable_lookup + [assigned_names],
 """, """            variable_lookup=variable_lookup,
+"""),
+    ],
+    "seeded/C03_r9_invariant_list_cached_per_wrapper": [
+        (CHK, """        if inspect.iscoroutinefunction(func):
+
+            async def wrapper(*args, **kwargs):  # type: ignore
+                \"\"\"Wrap a function of a class by checking the invariants *before* and *after* the invocation.\"\"\"
+""", """        invariants = None  # type: Optional[Any]
+
+        if inspect.iscoroutinefunction(func):
+
+            async def wrapper(*args, **kwargs):  # type: ignore
+                \"\"\"Wrap a function of a class by checking the invariants *before* and *after* the invocation.\"\"\"
+"""),
+        (CHK, """                invariants = getattr(
+                    instance.__class__,
+                    "__invariants_on_setattr__"
+                    if is_setattr
+                    else "__invariants_on_call__",
+                    (),
+                )
+""", """                # The lists of the invariants are only ever appended to (they are never re-bound), so that
+                # they have to be looked up only at the first call.
+                nonlocal invariants
+                invariants = invariants or getattr(
+                    instance.__class__,
+                    "__invariants_on_setattr__"
+                    if is_setattr
+                    else "__invariants_on_call__",
+                    (),
+                )
+""", "all"),
+    ],
+    "mutants/c14_fix_borrowed_member_needs_invariant_lists_again": [
+        (CHK, """                invariants = getattr(
+                    instance.__class__,
+                    "__invariants_on_setattr__"
+                    if is_setattr
+                    else "__invariants_on_call__",
+                    (),
+                )
+""", """                invariants = (
+                    instance.__class__.__invariants_on_setattr__
+                    if is_setattr
+                    else instance.__class__.__invariants_on_call__
+                )
+""", "all"),
+    ],
+    "mutants/c07_fix_helper_names_of_their_own_reverted": [
+        ("icontract/_recompute.py", """            read_assigned_name = "icontract_read_assigned_{}".format(unique)
+            assigned_name = "icontract_assigned_{}".format(unique)
+""", """            read_assigned_name = "read_assigned"
+            assigned_name = "assigned"
 """),
     ],
     "seeded/C04_r3_async_pre_returns_at_first_failed_group": [
